@@ -14,18 +14,18 @@ import (
 
 // Exp is one expected clause.
 type Exp struct {
-	Kind    string // "input", "group", "config"
-	Path    string // "" when the clause carries no path
-	Echo    string // expected echoed input (only checked when EchoKnown)
-	EchoOK  bool
-	Msg     string   // custom message, verbatim (without label); "" => default wording
-	Rule    string   // rule key
-	Default string   // substring the default wording must contain ("" => any non-empty text)
-	Group   []string // member paths of a group clause, in declaration order
-	GroupUnordered bool // members come from a Go map: their order inside the clause is unspecified
-	GKind   string   // "either" | "botheq" | "either-single" | "botheq-single"
-	Order   []OrdKey // position in the walk; clauses under different keys of one Go map are unordered
-	ConfigS string   // substring a config clause must contain
+	Kind           string // "input", "group", "config"
+	Path           string // "" when the clause carries no path
+	Echo           string // expected echoed input (only checked when EchoKnown)
+	EchoOK         bool
+	Msg            string   // custom message, verbatim (without label); "" => default wording
+	Rule           string   // rule key
+	Default        string   // substring the default wording must contain ("" => any non-empty text)
+	Group          []string // member paths of a group clause, in declaration order
+	GroupUnordered bool     // members come from a Go map: their order inside the clause is unspecified
+	GKind          string   // "either" | "botheq" | "either-single" | "botheq-single"
+	Order          []OrdKey // position in the walk; clauses under different keys of one Go map are unordered
+	ConfigS        string   // substring a config clause must contain
 }
 
 // OrdKey is one level of the walk position. Map entries have M=true and are mutually unordered.
@@ -56,11 +56,11 @@ type Env struct {
 
 type grp struct {
 	unordered bool
-	obj     string
-	text    string
-	kind    string
-	members []string
-	vals    []reflect.Value
+	obj       string
+	text      string
+	kind      string
+	members   []string
+	vals      []reflect.Value
 }
 
 var builtinKeys = map[string]bool{}
